@@ -101,6 +101,7 @@ pub fn run(toks: &[&str], out: &mut String) {
                 Err(BuildError::EmptySamplesMap) => return out.push_str("ERR:empty"),
                 Err(BuildError::UnknownSample { sample }) => return out.push_str(&format!("ERR:unknown:{sample}")),
                 Err(BuildError::Projection(e)) => return out.push_str(&format!("ERR:proj:{}", fmt_perr(&e).replace(' ', "_"))),
+                Err(BuildError::Io(_)) => return out.push_str("ERR:io"),
                 Err(e) => return out.push_str(&format!("ERR:other:{e}")),
             };
             let zero = reader.create_zero_scs();
